@@ -500,6 +500,46 @@ def molcas_layout(ctx, b, label):
             ctx.compare(fmt + ':read', got, want, dict(replay, variant=variant))
 
 
+def vlx_layout(ctx, b, label):
+    """veloxchem (coq/Model/Veloxchem.v, MD5 included): the writer byte for byte; read_veloxchem (called as
+    read_formatted_basis_str calls it: on the stripped lines) on the text as written - which it refuses, the writer
+    hashing the text with its line ends and the reader without -, on the same text carrying the digest the reader
+    computes, and on damaged copies of that"""
+    from basis_set_exchange import writers, manip
+    from basis_set_exchange.readers import veloxchem as rv
+    if ctx.model is None:
+        return
+    e = electron_only(b)
+    if not e['elements']:
+        return
+    w = impl.call(writers.write_formatted_basis_str, copy.deepcopy(e), 'veloxchem')
+    pb = impl.call(lambda x: manip.prune_basis(manip.uncontract_spdf(manip.uncontract_general(manip.optimize_general(x, True), False), 0, False), False),
+                   copy.deepcopy(e))
+    if w[0] != 'ok' or pb[0] != 'ok' or len(w[1]) > 60000:
+        return
+    replay = {'kind': 'veloxchem-layout', 'label': label, 'input': e if len(str(e)) < 15000 else None}
+    ctx.case((label, 'veloxchem-layout'), True, 'veloxchem-layout')
+    ctx.compare('vlx_write_electron', ('ok', w[1]), ctx.model.call('vlx_write_electron', e['name'], _els(pb[1])), replay)
+    lines = [l.strip() for l in w[1].splitlines()]
+    body = w[1][:w[1].rindex('\n') + 1] if '\n' in w[1] else w[1]
+    d = ctx.model.call('vlx_unbroken_md5', body)
+    variants = [('as-written', lines)]
+    if d[0] == 'ok':
+        fixed = lines[:-1] + [d[1]]
+        variants += [('reader-digest', fixed), ('damaged', [l.strip() for l in damage_lines(fixed, random.Random(len(w[1]) + 13))])]
+    for variant, ls in variants:
+        r = impl.call(rv.read_veloxchem, list(ls))
+        got = r
+        if r[0] == 'ok':
+            got = ('ok', [[int(z) if str(z).isdigit() else z, el.get('electron_shells', [])] for z, el in r[1].items()])
+        m = ctx.model.call('vlx_read_electron', ls)
+        if m[0] == 'error' and 'NotImpl' in str(m[1]):
+            ctx.dist['veloxchem-read:outside-modelled-fragment'] += 1
+            continue
+        ctx.case((label, 'veloxchem-read', variant), True, 'veloxchem-read:' + variant)
+        ctx.compare('vlx_read_electron', norm_read(got), norm_read(m), dict(replay, variant=variant))
+
+
 def norm_read(r):
     if r[0] != 'ok':
         return ('error', 'any')      # the reader's error classes (RuntimeError / KeyError / IndexError ...) are not part of the property
@@ -587,6 +627,7 @@ def work_store(ctx, item):
     for wf in WHOLE_FORMATS:
         whole_file(ctx, b, label, wf)
     lmol_layout(ctx, b, label)
+    vlx_layout(ctx, b, label)
     for mf in MORE_FORMATS:
         more_format(ctx, b, label, mf)
     molcas_layout(ctx, b, label)
@@ -631,6 +672,7 @@ def work_generated(ctx, seed):
     for wf in WHOLE_FORMATS:
         whole_file(ctx, b, 'gen:%d:%s' % (seed, kind), wf)
     lmol_layout(ctx, b, 'gen:%d:%s' % (seed, kind))
+    vlx_layout(ctx, b, 'gen:%d:%s' % (seed, kind))
     for mf in MORE_FORMATS:
         more_format(ctx, b, 'gen:%d:%s' % (seed, kind), mf)
     molcas_layout(ctx, b, 'gen:%d:%s' % (seed, kind))
